@@ -79,6 +79,33 @@ def skipLine : Text → Text
   | [] => []
   | c :: cs => if c ≠ '\n' then skipLine cs else c :: cs
 
+/-- operators and punctuation: the token for `c` given the next character, and whether that next
+    character belongs to the token too (two-character operators are matched before their
+    one-character prefixes) -/
+def punct (c : Char) (nx : Option Char) : Token × Bool :=
+  if c = '=' then (if nx = some '=' then (.eq, true) else (.assign, false))
+  else if c = '!' then (if nx = some '=' then (.neq, true) else (.bang, false))
+  else if c = '<' then (if nx = some '=' then (.lte, true) else (.lt, false))
+  else if c = '>' then (if nx = some '=' then (.gte, true) else (.gt, false))
+  else if c = '&' then (if nx = some '&' then (.and, true) else (.illegal, false))
+  else if c = '|' then (if nx = some '|' then (.or, true) else (.illegal, false))
+  else if c = '/' then (.slash, false)
+  else if c = ';' then (.semi, false)
+  else if c = ',' then (.comma, false)
+  else if c = '.' then (.dot, false)
+  else if c = '(' then (.lparen, false)
+  else if c = ')' then (.rparen, false)
+  else if c = '{' then (.lbrace, false)
+  else if c = '}' then (.rbrace, false)
+  else if c = '[' then (.lbracket, false)
+  else if c = ']' then (.rbracket, false)
+  else if c = '-' then (.minus, false)
+  else if c = '+' then (.plus, false)
+  else if c = '*' then (.star, false)
+  else if c = '^' then (.caret, false)
+  else if c = '%' then (.percent, false)
+  else (.illegal, false)
+
 /-- One call of `Tokenizer::next`: `none` = end of input. Whitespace and comments are skipped by
     recursion, exactly as the Rust code does (`return self.next()`), hence the fuel. -/
 def nextToken (cc : CharClass) : Nat → Text → Option (Token × Text)
@@ -86,54 +113,26 @@ def nextToken (cc : CharClass) : Nat → Text → Option (Token × Text)
   | _ + 1, [] => none
   | f + 1, c :: cs =>
     if identStart cc c then
-      let w := cs.takeWhile (identCont cc)
-      some (keywordOrIdent (c :: w), cs.dropWhile (identCont cc))
+      some (keywordOrIdent (c :: cs.takeWhile (identCont cc)), cs.dropWhile (identCont cc))
     else if isDigit c then
-      let (a, r, d) := scanNum cs false
-      some (if d then .float (c :: a) else .int (c :: a), r)
+      match scanNum cs false with
+      | (a, r, d) => some (if d then .float (c :: a) else .int (c :: a), r)
     else if c = '"' then
-      let (a, r) := scanStr cs false
-      match r with
-      | [] => some (.illegal, [])          -- unterminated string (F6)
-      | _ :: r' => some (.str a, r')
+      match scanStr cs false with
+      | (_, []) => some (.illegal, [])          -- unterminated string (F6)
+      | (a, _ :: r') => some (.str a, r')
     else if isWs c then nextToken cc f cs
-    else if c = '=' then
-      match cs with | '=' :: r => some (.eq, r) | _ => some (.assign, cs)
-    else if c = '!' then
-      match cs with | '=' :: r => some (.neq, r) | _ => some (.bang, cs)
-    else if c = '<' then
-      match cs with | '=' :: r => some (.lte, r) | _ => some (.lt, cs)
-    else if c = '>' then
-      match cs with | '=' :: r => some (.gte, r) | _ => some (.gt, cs)
-    else if c = '/' then
-      match cs with
-      | '/' :: _ => nextToken cc f (skipLine cs)
-      | _ => some (.slash, cs)
-    else if c = '&' then
-      match cs with | '&' :: r => some (.and, r) | _ => some (.illegal, cs)
-    else if c = '|' then
-      match cs with | '|' :: r => some (.or, r) | _ => some (.illegal, cs)
-    else if c = ';' then some (.semi, cs)
-    else if c = ',' then some (.comma, cs)
-    else if c = '.' then some (.dot, cs)
-    else if c = '(' then some (.lparen, cs)
-    else if c = ')' then some (.rparen, cs)
-    else if c = '{' then some (.lbrace, cs)
-    else if c = '}' then some (.rbrace, cs)
-    else if c = '[' then some (.lbracket, cs)
-    else if c = ']' then some (.rbracket, cs)
-    else if c = '-' then some (.minus, cs)
-    else if c = '+' then some (.plus, cs)
-    else if c = '*' then some (.star, cs)
-    else if c = '^' then some (.caret, cs)
-    else if c = '%' then some (.percent, cs)
-    else some (.illegal, cs)
+    else if c = '/' && cs.head? = some '/' then nextToken cc f (skipLine cs)
+    else
+      match punct c cs.head? with
+      | (t, two) => some (t, if two then cs.tail else cs)
 
-/-- all tokens of a text (the parser pulls them one by one; lexing never fails) -/
+/-- all tokens of a text (the parser pulls them one by one; lexing never fails).  The fuel is an
+    upper bound of the remaining length + 1, so it also serves as the fuel of `nextToken`. -/
 def lexF (cc : CharClass) : Nat → Text → List Token
   | 0, _ => []
   | f + 1, cs =>
-    match nextToken cc (cs.length + 1) cs with
+    match nextToken cc (f + 1) cs with
     | none => []
     | some (t, rest) => t :: lexF cc f rest
 
